@@ -33,7 +33,7 @@ man = {
     "setup_cmd": "./check setup",
     "hooks": {
         "guard": "verif",
-        "enable": "go build -tags verif. Hook commits add files that start with //go:build verif (*/export_verif*.go, internal/verifhook/point_verif.go) plus package internal/verifhook whose Point(name) is an empty, inlined function without the tag, and one-line `verifhook.Point(\"...\")` calls (added lines only, nothing rewritten) at synchronisation boundaries in uasc/secure_channel.go; with the tag off the calls compile to nothing and the suite passes",
+        "enable": "go build -tags verif. Hook commits add files that start with //go:build verif (*/export_verif*.go, internal/verifhook/verifhook_verif.go) plus package internal/verifhook whose Point(name) is an empty, inlined function without the tag, and one-line `verifhook.Point(\"...\")` calls (added lines only, nothing rewritten) at synchronisation boundaries in uasc/secure_channel.go; with the tag off the calls compile to nothing and the suite passes",
         "baseline_off_cmd": "cd /repo && go build ./... && go test -vet=off -count=1 -timeout 25m ./...",
         "source_commits": hooks,
         "add_only": True,
